@@ -260,13 +260,32 @@ pub fn gen_doc(rng: &mut Rng) -> DocD {
     if rng.chance(3, 4) {
         d.palette = Some((0..ncol).map(|_| (rng.byte(), rng.byte(), rng.byte())).collect());
     }
+    if rng.chance(1, 5) {
+        // palettes related to the stock DOS palette (the writer leaves the palette out when it "is the default"):
+        // a prefix of it, exactly it, it plus more colours, it with one colour changed
+        let dos: Vec<(u8, u8, u8)> = icy_engine::DOS_DEFAULT_PALETTE.iter().map(|c| c.get_rgb()).collect();
+        let mut p = dos.clone();
+        match rng.usize(4) {
+            0 => p.truncate(1 + rng.usize(15)),
+            1 => {}
+            2 => p.extend((0..1 + rng.usize(20)).map(|_| (rng.byte(), rng.byte(), rng.byte()))),
+            _ => {
+                let i = rng.usize(16);
+                p[i] = (p[i].0 ^ 0x10, p[i].1, p[i].2);
+            }
+        }
+        d.palette = Some(p);
+    }
     let ncol = d.palette.as_ref().map(|p| p.len()).unwrap_or(16) as u32;
     // font table: slot 0 always (the preview is rendered with it), plus a few others
     let mut pages: Vec<u16> = vec![0];
     // slot 0 is usually CP437 8x16 but also an 8x8 / 8x14 / 8x19 / 8x32 font: the preview cell size follows it, and
     // the other slots then hold taller and shorter fonts than the preview cell
-    if rng.chance(2, 3) {
+    if rng.chance(1, 2) {
         d.fonts.push(FontD { slot: 0, name: "Font 0".into(), height: 16, builtin: Some(0), data: vec![], sauce_name: None });
+    } else if rng.chance(1, 3) {
+        // built-in pages with long names (more than the 22 characters of the SAUCE font field) in slot 0
+        d.fonts.push(FontD { slot: 0, name: "builtin 0".into(), height: 16, builtin: Some(1 + rng.usize(42)), data: vec![], sauce_name: None });
     } else {
         let h = *rng.pick(&[8u8, 14, 16, 19, 32]);
         d.fonts.push(FontD { slot: 0, name: format!("Font 0 x{h}"), height: h, builtin: None, data: rng.bytes(256 * h as usize), sauce_name: None });
@@ -353,7 +372,7 @@ impl Prop for C07 {
         "C07"
     }
     fn rule(&self) -> &'static str {
-        "documents with 1..=6 layers (sizes 0..=200 x 0..=120, mostly <= 40x20 because every save PNG-encodes a preview; offsets -50..=50; all combinations of visible / locked / position-locked / alpha / alpha-locked; modes normal/chars/attributes; colour tags; transparency; Unicode and 300-character titles; rows ending before and at the layer width; short-form and long-form cells incl. characters > 0xFFFF, colours > 255 and the transparent colour; attribute flags), palettes of 1..=300 colours, font slots from {0,1,2,5,42,100,255,256,300} with built-in pages 0..=42 and custom fonts of height 8/14/16/19/32 (also in slot 0, whose size the preview uses), every referenced page present, with and without SAUCE, are saved with Buffer::to_bytes(\"icy\", lossles_output) and loaded with Buffer::from_bytes; a field-by-field comparator checks buffer size and modes, every layer property, every cell inside the layer size (invisible cells as invisible only), the palette, every font slot (name, size, length, glyph bytes) and the SAUCE fields. distinct_nontrivial = distinct (size, layer shapes and flags, fonts, palette length) documents"
+        "documents with 1..=6 layers (sizes 0..=200 x 0..=120, mostly <= 40x20 because every save PNG-encodes a preview; offsets -50..=50; all combinations of visible / locked / position-locked / alpha / alpha-locked; modes normal/chars/attributes; colour tags; transparency; Unicode and 300-character titles; rows ending before and at the layer width; short-form and long-form cells incl. characters > 0xFFFF, colours > 255 and the transparent colour; attribute flags), palettes of 1..=300 colours (also prefixes, the whole, extensions and one-colour variations of the stock DOS palette), font slots from {0,1,2,5,42,100,255,256,300} with built-in pages 0..=42 (also in slot 0: names longer than the SAUCE font field) and custom fonts of height 8/14/16/19/32 (also in slot 0, whose size the preview uses), every referenced page present, with and without SAUCE, are saved with Buffer::to_bytes(\"icy\", lossles_output) and loaded with Buffer::from_bytes; a field-by-field comparator checks buffer size and modes, every layer property, every cell inside the layer size (invisible cells as invisible only), the palette, every font slot (name, size, length, glyph bytes) and the SAUCE fields. distinct_nontrivial = distinct (size, layer shapes and flags, fonts, palette length) documents"
     }
     fn meta(&self, ctx: &Ctx) -> Value {
         json!({"floor_evaluations": 500, "floor_distinct": ctx.tier.pick(500u64, 10000u64),
